@@ -93,7 +93,31 @@ Fixpoint evm_steps {K} (c : gcfg) (s : wstate) (os : list op) : wstate * list (w
 Definition poll_heads (s : wstate) (answers : list (option Z)) (orc : key -> rans) : list op :=
   map (fun h : Z * bool => OHead (fst h) (snd h) orc) (snd (fst (poll_tick (w_enabled s) (w_last s) answers))).
 
+(* Run re-entered: the new poller is off; with the guard of repo commit b274c5a it is switched on at once when messages of the
+   previous Run are still pending *)
+Definition restart_enabled (guard : bool) (p : pending) : bool :=
+  if guard then match p with [] => false | _ => true end else false.
+
 Definition gstep {K} (c : gcfg) (s : wstate) (o : gop K) : wstate * list (wout K) :=
+  match o with
+  | GFetch a =>
+    let r := fetch (g_chan c) (w_cur s) a in
+    (mkW (w_pending s) (fst r) (w_enabled s) (w_last s), map wout_of_gout (snd r))
+  | GRestart a h0 =>
+    (* w.ethConn = NewBlockPollConnector(..) (poller off), the guard `if len(w.pending) > 0 { EnablePoller() }` (repo commit
+       b274c5a; its presence is read from the source), log subscription, initial fetch; w.pending and w.currentGuardianSet are
+       whatever the previous Run left *)
+    let r := fetch (g_chan c) (w_cur s) a in
+    (mkW (w_pending s) (fst r) (restart_enabled evm_restart_enables_poller (w_pending s)) h0, map wout_of_gout (snd r))
+  | GEvm o => evm_step c s o
+  | GPoll answers orc =>
+    let pt := poll_tick (w_enabled s) (w_last s) answers in
+    let r := evm_steps c (mkW (w_pending s) (w_cur s) (w_enabled s) (fst (fst pt))) (poll_heads s answers orc) in
+    (fst r, snd r ++ (if snd pt then [WDied] else []))      (* three failing polls: errFeed -> header subscription error -> errC *)
+  end.
+
+(* the same machine for either shape of Run (guard = false: the tree before repo commit b274c5a) *)
+Definition gstep_gen {K} (guard : bool) (c : gcfg) (s : wstate) (o : gop K) : wstate * list (wout K) :=
   match o with
   | GFetch a =>
     let r := fetch (g_chan c) (w_cur s) a in
@@ -102,12 +126,18 @@ Definition gstep {K} (c : gcfg) (s : wstate) (o : gop K) : wstate * list (wout K
     (* w.ethConn = NewBlockPollConnector(..) (poller off), log subscription, initial fetch; w.pending and
        w.currentGuardianSet are whatever the previous Run left *)
     let r := fetch (g_chan c) (w_cur s) a in
-    (mkW (w_pending s) (fst r) false h0, map wout_of_gout (snd r))
+    (mkW (w_pending s) (fst r) (restart_enabled guard (w_pending s)) h0, map wout_of_gout (snd r))
   | GEvm o => evm_step c s o
   | GPoll answers orc =>
     let pt := poll_tick (w_enabled s) (w_last s) answers in
     let r := evm_steps c (mkW (w_pending s) (w_cur s) (w_enabled s) (fst (fst pt))) (poll_heads s answers orc) in
     (fst r, snd r ++ (if snd pt then [WDied] else []))      (* three failing polls: errFeed -> header subscription error -> errC *)
+  end.
+
+Fixpoint grun_gen {K} (guard : bool) (c : gcfg) (s : wstate) (ops : list (gop K)) : wstate * list (list (wout K)) :=
+  match ops with
+  | [] => (s, [])
+  | o :: t => let r := gstep_gen guard c s o in let r' := grun_gen guard c (fst r) t in (fst r', snd r :: snd r')
   end.
 
 Fixpoint grun {K} (c : gcfg) (s : wstate) (ops : list (gop K)) : wstate * list (list (wout K)) :=
